@@ -153,6 +153,10 @@ def replay_failing_harness(ws, crate, harness, features=(), log_dir=None, gen_ti
             role = "%s::%s" % (enclosing_fn(ws.ws, at), message_class(msg))
         elif d.get("crash") or r.get("crash"):
             role = "process-crash"
+        # a playback that only trips Kani's own end-of-run bookkeeping ("concrete values left over": a stub that draws
+        # kani::any() values is not applied natively) has NOT reproduced the counterexample
+        def genuine(x):
+            return bool(x.get("failed")) and "concrete_playback.rs" not in (x.get("panic_at") or "")
         out.append({"test": name, "src": src, "file": f, "dev": d, "release_like": r, "role": role,
-                    "reproduced": bool(d.get("failed") or r.get("failed"))})
+                    "reproduced": genuine(d) or genuine(r)})
     return out, ""
